@@ -61,9 +61,8 @@ DIVH["unwindset"] = {"pstm_div:/while \\(n-- >= 0\\)/": 5, "vf_harness:/for \\(k
 MODH = LIN("mod", 10, 2, (0,), extra={"VF_QBITS": 3, "VF_MOD": 1})
 MODH["cases"] = [c for c in MODH["cases"] if c["defs"]["VF_UB"] >= 1 and c["defs"]["VF_UA"] >= c["defs"]["VF_UB"]]
 for _c in MODH["cases"]:
-    if (_c["defs"]["VF_UA"], _c["defs"]["VF_UB"]) != (1, 1):
-        _c["tier"] = "thorough"
-MODH["cap_s"] = 3600
+    _c["tier"] = "thorough"   # two pstm_div calls per query: no verdict within 25 min (quick cap)
+MODH["cap_s"] = 5400
 MODH["unwind"] = 10
 MODH["unwindset"] = {"pstm_div:/while \\(n-- >= 0\\)/": 5, "vf_harness:/for \\(k = 0/": 6, "pstm_count_bits:/./": 66}
 for _h in HARNESSES[4:]:  # one-operand operations
